@@ -113,14 +113,35 @@ def law_violation(vd, res, what):
 
 
 def collect_cases(results, limit=None, rng=None):
-    lines = []
-    for r in results:
-        lines.extend(r.lines)
-    cases = relreplay.parse_cases(lines)
-    if limit and len(cases) > limit:
-        rng = rng or random.Random(common.seed())
-        cases = rng.sample(cases, limit)
-    return cases
+    """distinct cases of all TLC runs; over the limit the sample is STRATIFIED: every run (stratum) keeps a quota of
+    limit / (2 * runs) of its own cases, the rest of the budget is drawn from all remaining cases (a small targeted
+    stratum is not diluted by a large one)"""
+    per_run = [relreplay.parse_cases(r.lines) for r in results]
+    seen, strata = set(), []
+    for cs in per_run:
+        mine = []
+        for c in cs:
+            h = relreplay.case_hash(c)
+            if h not in seen:
+                seen.add(h)
+                mine.append(c)
+        strata.append(mine)
+    strata = [m for m in strata if m]
+    total = sum(len(m) for m in strata)
+    if not limit or total <= limit:
+        return [c for m in strata for c in m]
+    rng = rng or random.Random(common.seed())
+    quota = max(1, limit // (2 * max(1, len(strata))))
+    chosen, rest = [], []
+    for m in strata:
+        idx = list(range(len(m)))
+        rng.shuffle(idx)
+        chosen.extend(m[i] for i in idx[:quota])
+        rest.extend(m[i] for i in idx[quota:])
+    room = limit - len(chosen)
+    if room > 0 and rest:
+        chosen.extend(rng.sample(rest, min(room, len(rest))))
+    return chosen[:limit] if len(chosen) > limit else chosen
 
 
 PANDAS_ONLY_FNS = ("cumprod", "first", "last", "ffill", "bfill")
